@@ -35,7 +35,7 @@ impl QuadraticErrorSolver {
         }
     }
 
-    #[cfg(test)]
+    /// Returns the mass point of the intersections, stored as XYZ / W
     pub fn mass_point(&self) -> nalgebra::Vector4<f32> {
         self.mass_point
     }
